@@ -58,6 +58,7 @@ CONSTANTS
   StaleClears = TRUE
   KickClears = TRUE
   AllowKick = TRUE
+  AllowQuit = TRUE
   Sequential = %s
   Export = TRUE
 INVARIANTS Emit
@@ -71,6 +72,8 @@ def feats(s):
         f.add(("req", p["api"], p["beh"], p["s"]))
     steps = [(x["k"], x["t"]) for x in s["sched"]]
     f.add(("shape", tuple(k for k, _ in steps[:7])))
+    for pat in patterns(s):
+        f.add(("pattern", pat))
     kinds = [k for k, _ in steps]
     if "kick" in kinds:
         i = kinds.index("kick")
@@ -104,21 +107,70 @@ def kick_during_attempt(s):
     return False
 
 
+def patterns(s):
+    """interleavings the property singles out: named so that every run contains some of each"""
+    out = set()
+    nt, phase = {}, {}          # per thread: number of its steps so far, where it is
+    for x in s["sched"]:
+        k, t = x["k"], x["t"]
+        if k == "t":
+            nt[t] = nt.get(t, 0) + 1
+            if nt[t] == 1:
+                if any(p == "dial" for p in phase.values()):
+                    out.add("request-while-another-is-dialing")
+                if any(p == "wait" for p in phase.values()):
+                    out.add("request-while-another-is-logging-in")
+                phase[t] = "checked"
+            elif nt[t] == 2 and phase.get(t) == "checked":
+                phase[t] = "dial"
+            else:
+                phase[t] = "after"
+        elif k == "d" and phase.get(t) == "dial":
+            phase[t] = "wait"
+        elif k == "b":
+            phase[t] = "after"
+        elif k == "quit":
+            if any(p == "dial" for p in phase.values()):
+                out.add("quit-while-dialing")
+            if any(p == "wait" for p in phase.values()):
+                out.add("quit-while-logging-in")
+            if not any(p in ("dial", "wait") for p in phase.values()):
+                out.add("quit-idle")
+    return out
+
+
 def select(pool, budget, rnd, max_hang, max_kick, max_kick_live):
     rnd.shuffle(pool)
     seen, picked, rest = set(), [], []
     used = {"hang": 0, "kick": 0, "live": 0}
+    # first: three schedules of every named pattern (without hangs and kicks: cheap and sharp)
+    want = {}
+    for s in pool:
+        if any(p["beh"] == "hang" for p in s["prog"].values()) or any(x["k"] == "kick" for x in s["sched"]):
+            continue
+        for pat in patterns(s):
+            if want.get(pat, 0) < 3 and s not in picked:
+                picked.append(s)
+                seen |= feats(s)
+                for q in patterns(s):
+                    want[q] = want.get(q, 0) + 1
+    maxquit = max(6, budget // 5)
+
+    used["quit"] = sum(1 for s in picked if any(x["k"] == "quit" for x in s["sched"]))
 
     def cost(s):
         return {"hang": sum(1 for p in s["prog"].values() if p["beh"] == "hang"),
                 "kick": int(any(x["k"] == "kick" for x in s["sched"])),
+                "quit": int(any(x["k"] == "quit" for x in s["sched"])),
                 "live": int(kick_during_attempt(s))}
 
     def fits(c):
         return used["hang"] + c["hang"] <= max_hang and used["kick"] + c["kick"] <= max_kick and \
-            used["live"] + c["live"] <= max_kick_live
+            used["live"] + c["live"] <= max_kick_live and used["quit"] + c["quit"] <= max(maxquit, used["quit"])
 
     for s in pool:
+        if s in picked:
+            continue
         f, c = feats(s), cost(s)
         if len(picked) < budget and not f <= seen and fits(c):
             picked.append(s)
@@ -170,6 +222,9 @@ def key_of(rj):
                 return "request-admitted-while-attempt-live:slot-cleared-after-failed-%s-request" % calls[who]["api"]
             if kicked:
                 return "request-admitted-while-attempt-live:slot-cleared-by-kick-from-current-server"
+        dials = [r for r in before if r.get("ev") == "dial"]
+        if dials and dials[-1].get("phase") == "held":
+            return "request-admitted-while-attempt-live:first-attempt-still-dialing"
         return "request-admitted-while-attempt-live"
     if ev == "chk":
         return "check-answer-%s-not-allowed:%s" % (bad.get("res"), cfg)
@@ -188,6 +243,18 @@ def key_of(rj):
             what.append("leftovers-after-disconnect")
         if not what:
             what.append("current=%s,alive=%s" % ("none" if cur == "none" else "server", alive))
+        if any(r.get("ev") == "quit" for r in before):
+            qi = [j for j, r in enumerate(before) if r.get("ev") == "quit"][0]
+            lv = []
+            for r in before[:qi]:
+                if r.get("ev") == "start":
+                    lv.append((r["who"], r["s"]))
+                elif r.get("ev") == "end" and (r["who"], r["s"]) in lv:
+                    lv.remove((r["who"], r["s"]))
+                elif r.get("ev") == "conn" and r.get("s") != "none":
+                    lv = [a for a in lv if a[1] != r["s"]]
+            livenow = bool(lv)
+            return "quiescent-state:%s:after-client-quit%s:%s" % (cfg, "-during-attempt" if livenow else "", ";".join(what))
         kick = "+kick" if any(r.get("ev") == "kick" for r in before) else ""
         calls = [r for r in before if r.get("ev") == "call"]
         ctx = "after-%s(%s/%s)%s" % (last.get("status", "nothing"), last.get("beh", ""),
@@ -222,7 +289,7 @@ def run(ctx):
     three = '"t1", "t2", "t3"'
     pool = []
     for seq, n in (("TRUE", ctx.pick(250, 2500)), ("FALSE", ctx.pick(600, 6000))):
-        g = ctx.tlc("SwitchImpl", cfg_text=GEN % (three, seq), workers=1, simulate=n, depth=24, count=False, timeout=1200)
+        g = ctx.tlc("SwitchImpl", cfg_text=GEN % (three, seq), workers=1, simulate=n, depth=30, count=False, timeout=1200)
         got = g.printed_json("SCHED")
         for s in got:
             s["sequential"] = seq == "TRUE"
@@ -233,7 +300,8 @@ def run(ctx):
         s["ver"] = (763, 765)[(i + ctx.seed) % 2]
     nseq = sum(1 for s in scheds if s["sequential"])
     ctx.log("schedules: %d (of %d simulated), %d sequential, %d with a kick"
-            % (len(scheds), len(pool), nseq, sum(1 for s in scheds if any(x["k"] == "kick" for x in s["sched"]))))
+            % (len(scheds), len(pool), nseq, sum(1 for s in scheds if any(x["k"] == "kick" for x in s["sched"]))) +
+            "; named patterns: %s" % sorted({p for s in scheds for p in patterns(s)}))
     with open(ctx.path("sched.json"), "w") as fh:
         json.dump(scheds, fh)
 
